@@ -167,9 +167,14 @@ class Spec:
         """Scalar (dense, isotropic) or per-dimension (blockdiag) whitened RMS of z under N(0, S)."""
         N = self.N
         if self.fact == "blockdiag":
+            if any(not S[a, a] > 0 for a in range(self.d)):
+                raise ZeroDivisionError("innovation variance not positive")
             return np.array([N.sqrt(z[a] * z[a] / S[a, a]) for a in range(self.d)], dtype=S.dtype)
         w = N.solve(S, z)
-        return N.sqrt((z @ w) / len(z))
+        quad = z @ w
+        if quad < 0:
+            raise ZeroDivisionError("innovation covariance not positive definite")
+        return N.sqrt(quad / len(z))
 
     def scale_matrix(self, sigma):
         """diag over state of per-dimension factors (base * calibrated scale)."""
